@@ -48,3 +48,21 @@ def sign_validated(request):
     return (jtag(request) == T_DICT
             and (not jhas(request, "auth") or valid_auth(request["auth"]))
             and jhas(request, "message") and valid_message_any(request["message"]))
+
+
+def brothers_ok(request):
+    """brothers: one list per block, each a list of non-empty hex strings"""
+    b = request["brothers"]
+    return (jhas(request, "brothers") and jtag(b) == T_LIST and jlen(b) == jlen(request["blocks"])
+            and forall_int(0, jlen(b), lambda i: jtag(jitem(b, i)) == T_LIST
+                           and forall_int(0, jlen(jitem(b, i)), lambda j: jtag(jitem(jitem(b, i), j)) == T_STR
+                                          and is_hex(jstr(jitem(jitem(b, i), j)))
+                                          and len(unhex(jstr(jitem(jitem(b, i), j)))) > 0)))
+
+
+def brothers_value_ok(b, nblocks):
+    return (jtag(b) == T_LIST and jlen(b) == nblocks
+            and forall_int(0, jlen(b), lambda i: jtag(jitem(b, i)) == T_LIST
+                           and forall_int(0, jlen(jitem(b, i)), lambda j: jtag(jitem(jitem(b, i), j)) == T_STR
+                                          and is_hex(jstr(jitem(jitem(b, i), j)))
+                                          and len(unhex(jstr(jitem(jitem(b, i), j)))) > 0)))
